@@ -151,7 +151,7 @@ theorem spec_failed_batch_is_nop (α : Spec.State) (sts : List Stmt) (e : Err)
   unfold Spec.step at h ⊢
   simp only [Spec.stepCore] at h ⊢
   split at h
-  · rename_i heq; simp only [heq]
+  · rename_i heq; rfl
   · rename_i heq
     exfalso
     simp only at h
@@ -173,7 +173,7 @@ theorem failed_auto_writes_nothing (σ : State) (st : Stmt) (e : Err)
     simp only [herr, if_true]
     rfl
   · rename_i herr
-    simp only [herr, if_false] at h
+    simp only at h
     exfalso
     split at h
     · simp only [Out.stmt.injEq] at h
